@@ -17,7 +17,9 @@ Clauses(r) ==
   \cup (IF ~r.hung /\ ~r.stdoutFile.equal THEN {"C12_StdoutFileIncomplete"} ELSE {})
   \cup (IF ~r.hung /\ ~r.stderrFile.equal THEN {"C12_StderrFileIncomplete"} ELSE {})
   \cup (IF ~r.hung /\ ~r.outputVar.equal THEN {"C11_CapturedOutputWrong"} ELSE {})
-  \cup (IF ~r.hung /\ (r.status # ExpectedStatus(r) \/ r.attempts # ExpectedAttempts(r)) THEN {"C12_AttemptDisturbed"} ELSE {})
+  \* (a repeating step runs until the run is stopped: its number of iterations and final label are not fixed by the scenario)
+  \cup (IF ~r.hung /\ r.sc.repeat = 0 /\ (r.status # ExpectedStatus(r) \/ r.attempts # ExpectedAttempts(r)) THEN {"C12_AttemptDisturbed"} ELSE {})
+  \cup (IF ~r.hung /\ r.sc.repeat > 0 /\ r.attempts < r.sc.repeat THEN {"C12_AttemptDisturbed"} ELSE {})
 Init == l = 1 /\ bad = 0
 Next == /\ l <= Len(Trace) /\ l' = l + 1
         /\ LET c == Clauses(R) IN IF c = {} THEN UNCHANGED bad
